@@ -163,7 +163,7 @@ namespace sqf::parser::sqf
                     if (is_match_repeated<2, '/'>(iter))
                     {
                         // find line comment end
-                        while (!is_match<'\n'>(++iter));
+                        do { ++iter; } while (iter < m_end && !is_match<'\n'>(iter));
 
                         // update position info
                         m_line++;
@@ -180,7 +180,7 @@ namespace sqf::parser::sqf
                         ++iter;
                         ++iter;
                         // find block comment end
-                        while (!(is_match<'*'>(iter) && is_match<'/'>(iter + 1)))
+                        while (iter < m_end && !(is_match<'*'>(iter) && is_match<'/'>(iter + 1)))
                         {
                             // update position info
                             if (!is_match<'\n'>(iter))
@@ -195,11 +195,12 @@ namespace sqf::parser::sqf
                             ++iter;
                         }
 
-                        // EOF check
-                        if (is_match<'/'>(iter) && is_match<'/'>(iter + 1))
+                        // The terminator is part of the comment (there is none at the end of input)
+                        if (is_match<'*'>(iter) && is_match<'/'>(iter + 1))
                         {
                             ++iter;
                             ++iter;
+                            m_column += 2;
                         }
                         // set length
                         len = iter - m_current;
